@@ -2,7 +2,7 @@
 (* Unary transcriptions (pack, not, to_lower_depth) on a DEEPER universe than MC_BmocAlgo: every well-formed cell list of
    depth <= 2 inside base cell 0 with all flags full, packed or not (four full siblings may be present at either level, so
    packing needs cascades of two levels and the pass loop of `pack` runs more than twice), optionally with base cells
-   1, 2, 3 full beside it (the cascade must then stop at depth 0).  ~105 k lists, plus the 'exploded' lists of depth <= 4 (one subtree per level). *)
+   1, 2, 3 full beside it (the cascade must then stop at depth 0).  ~105 k lists, plus the 'exploded' lists of depth <= 3 (one subtree per level). *)
 EXTENDS BmocAlgo
 CONSTANT WithSiblings
 VARIABLE a
@@ -13,12 +13,12 @@ U2 == L \cup {<<x, y, z, w>> : x \in U1, y \in U1, z \in U1, w \in U1}
 RECURSIVE ListOf(_, _)
 ListOf(t, p) == IF Len(t) = 1 THEN (IF t[1] = 0 THEN <<>> ELSE << [b |-> 0, p |-> p, f |-> 1] >>)
                 ELSE ListOf(t[1], Append(p, 0)) \o ListOf(t[2], Append(p, 1)) \o ListOf(t[3], Append(p, 2)) \o ListOf(t[4], Append(p, 3))
-(* "exploded" trees down to depth 4: at each level one child is a subtree, the three others are leaves - the cascades of
-   sibling merges run over four levels there *)
+(* "exploded" trees down to depth 3: at each level one child is a subtree, the three others are leaves - the cascades of
+   sibling merges run over three levels there (four with the sibling base cells) *)
 RECURSIVE Ex(_)
 Ex(k) == IF k = 0 THEN L
          ELSE L \cup UNION {{[i \in 1..4 |-> IF i = pos THEN sub ELSE lv[i]] : lv \in [1..4 -> L]} : pos \in 1..4, sub \in Ex(k - 1)}
-Ex4 == Ex(4)
+Ex4 == Ex(3)
 Sib == IF WithSiblings THEN << [b |-> 1, p |-> <<>>, f |-> 1], [b |-> 2, p |-> <<>>, f |-> 1], [b |-> 3, p |-> <<>>, f |-> 1] >> ELSE <<>>
 Init == a \in {FromCells(ListOf(t, <<>>) \o Sib) : t \in U2 \cup Ex4}
 Next == UNCHANGED a
